@@ -159,6 +159,16 @@ def exec_set_raw(sess: Session, op: dict, step: int) -> Effect:
     sibs = sibling_snapshot(node, slots) if slots != {'_cost'} else []
     try:
         setattr(node, m.name, donor)
+        if isinstance(cur, models.RawTreeModel) and cur is not donor and not isinstance(cur, I.SPECIAL_EXPR):
+            zs = getattr(sess, 'zombies', None)
+            if zs is None:
+                zs = sess.zombies = []
+            try:
+                if cur.first_token.store_handle is None:
+                    zs.append(cur)
+                    del zs[:-4]
+            except Exception:
+                pass
     except Exception as e:
         eff.exc = e
         eff.outcome = 'raised'
@@ -546,7 +556,7 @@ def exec_seq(sess: Session, op: dict, step: int) -> Effect:
         if exp_exc is not None and isinstance(got_exc, exp_exc):
             eff.fault = {IndexError: 'F2_bad_index', ValueError: 'F4_size_or_missing'}.get(exp_exc, 'refusal')
             return eff
-        if op.get('fault', '').startswith('F1') and exp_exc is None:
+        if op.get('fault', '').startswith('F1') and (exp_exc is None or op['fault'].startswith('F1z')):
             eff.fault = op['fault']
             return eff
         if exp_exc is not None:
@@ -946,6 +956,16 @@ def exec_claim(sess: Session, op: dict, step: int) -> Effect:
             else:
                 un = obj.unclaim_interleaving_comments(subset)
                 if un:
+                    sess.last_unclaimed = un[-1]
+                try:
+                    span_ids = {id(t) for t in owner.tokens}
+                except Exception:
+                    span_ids = set()
+                if un and any(id(c) not in span_ids for c in un):
+                    # a comment at the very edge left the owner's span when it lost its owner (e.g. an entry
+                    # without an indented block): claim_interleaving_comments searches the model only
+                    sess.stats['reclaim_skipped_comment_left_span'] += 1
+                elif un:
                     try:
                         obj.claim_interleaving_comments(un)
                     except ValueError as e:
@@ -970,10 +990,14 @@ def exec_claim(sess: Session, op: dict, step: int) -> Effect:
             root = _root_node(sess, obj)
             if how.startswith('claim'):
                 got = getattr(obj, f'claim_{side}_comment')(ignore_if_already_claimed=op.get('ignore', False))
+                if got is not None:
+                    sess.last_unclaimed = got      # (now claimed: the generator may have its new owner release it)
                 if got is not None and getattr(obj, f'raw_{side}_comment') is not got:
                     eff.v('C14', 'claim_result', step, f'claim_{side}_comment returned a comment that is not raw_{side}_comment')
             elif how.startswith('unclaim'):
                 got = getattr(obj, f'unclaim_{side}_comment')()
+                if got is not None:
+                    sess.last_unclaimed = got
                 if getattr(obj, f'raw_{side}_comment') is not None:
                     eff.v('C14', 'unclaim_result', step, f'raw_{side}_comment still set after unclaim')
                 if got is not None and got.claimed:
